@@ -398,6 +398,19 @@ pub fn raw_lzma2(input: &[u8], kind: &ReaderKind, io: &Io) -> Run {
     })
 }
 
+/// One raw Lzma2Decoder object: first fed `first` (result ignored), then
+/// reset(), then the real input.
+pub fn raw_lzma2_reused(first: &[u8], input: &[u8], kind: &ReaderKind, io: &Io) -> Run {
+    run_with(input, kind, io, |mut r, w| {
+        let mut d = Lzma2Decoder::new();
+        let mut scratch = SinkState::new(Default::default());
+        let mut f: &[u8] = first;
+        let _ = d.decompress(&mut f, &mut scratch);
+        d.reset();
+        d.decompress(&mut r, w)
+    })
+}
+
 // ---------------------------------------------------------------------------
 // streaming decoder
 
